@@ -83,7 +83,7 @@ RULE = ("B+C: preprocess_ts on generated tree sequences (msprime +- historical s
 def run(ctx):
     res = Result()
     stats = new_stats()
-    run_batch(ctx, ctx.n(100, 4000), 1, res, stats)
+    run_batch(ctx, ctx.n(100, 2000), 1, res, stats)
     res.rule = RULE
     res.extra = dict(input_distribution=stats)
     return res
